@@ -153,9 +153,8 @@ func (c Int8) Log1pExp(a ConstScalar) Scalar {
     c.Log1p(c)
   } else
   if v <= 33.3 {
-    c.Neg(a)
     c.Exp(a)
-    c.Add(c, a)
+    c.Log1p(c)
   } else {
     c.Set(a)
   }
